@@ -74,10 +74,23 @@ def vectors():
     return out + INVALID + wrapped
 
 
+OTHER_VECTOR = "CVSS:3.1/AV:L/AC:H/PR:H/UI:R/S:U/C:L/I:N/A:N"
+
+
 def judge_cmd(args, vector, form):
-    argv = list(args) + (["-v", vector] if form == "-v" else ["--vector=" + vector])
+    if form == "first":                 # the vector option in front of the flags
+        argv = ["-v", vector] + list(args)
+    elif form == "twice":               # every flag given twice
+        argv = list(args) + list(args) + ["-v", vector]
+    elif form == "two-v":               # the vector option given twice: either reading is admitted
+        argv = ["-v", OTHER_VECTOR] + list(args) + ["-v", vector]
+    else:
+        argv = list(args) + (["-v", vector] if form == "-v" else ["--vector=" + vector])
     res = cli.run_main(argv, "")
-    return cli.judge_vector(args, vector, res, "-j" in args), argv, res
+    why = cli.judge_vector(args, vector, res, "-j" in args)
+    if why and form == "two-v" and cli.judge_vector(args, OTHER_VECTOR, res, "-j" in args) is None:
+        why = None
+    return why, argv, res
 
 
 def _vec_task(t):
@@ -85,8 +98,8 @@ def _vec_task(t):
     acc = sweep.new_acc()
     for oflags in OTHER_FLAGS:
         for vec in vecs:
-            for form in ("-v", "--vector="):
-                if form == "-v" and vec.startswith("-"):
+            for form in ("-v", "--vector=", "first", "twice", "two-v"):
+                if form != "--vector=" and vec.startswith("-"):
                     continue
                 args = vflags + oflags
                 acc["n"] += 1
